@@ -6,6 +6,7 @@ import (
 	"fmt"
 	"net/http"
 	"os"
+	"slices"
 	"sort"
 	"strings"
 	"testing"
@@ -30,6 +31,11 @@ type genRule struct {
 	Exprs     []vkit.Expr
 	Methods   []string // nil = any
 	Backtrack *bool
+	// further conditions of the rule (the requests of this check come with scheme http and host example.com) and, per
+	// route, a condition on the value of its first named single wildcard ("" = none)
+	Scheme string
+	Host   string
+	Params []string
 }
 
 type genCase struct {
@@ -53,7 +59,7 @@ func (c genCase) describe() map[string]any {
 			bt = fmt.Sprint(*r.Backtrack)
 		}
 
-		rs = append(rs, fmt.Sprintf("%s/%s %v methods=%v bt=%s", r.Src, r.ID, es, r.Methods, bt))
+		rs = append(rs, fmt.Sprintf("%s/%s %v methods=%v scheme=%q host=%q params=%v bt=%s", r.Src, r.ID, es, r.Methods, r.Scheme, r.Host, r.Params, bt))
 	}
 
 	return map[string]any{"default_rule": c.HasDefault, "default_bt": c.DefaultBT, "rules": rs}
@@ -96,6 +102,16 @@ func genRuleSets(t *rapid.T) genCase {
 			}
 
 			gr.Methods = rapid.SampledFrom([][]string{nil, nil, {"GET"}, {"POST"}}).Draw(t, "methods")
+
+			// now and then all kinds of conditions at once
+			if rapid.IntRange(0, 3).Draw(t, "furtherConditions") == 2 {
+				gr.Scheme = rapid.SampledFrom([]string{"http", "http", "https"}).Draw(t, "scheme")
+				gr.Host = rapid.SampledFrom([]string{"example.com", "example.com", "other.example.com"}).Draw(t, "hostCondition")
+
+				if gr.Methods == nil {
+					gr.Methods = []string{"GET", "POST"}
+				}
+			}
 			bt := effBT(c, gr)
 
 			nroutes := rapid.IntRange(1, 2).Draw(t, "nroutes")
@@ -121,6 +137,14 @@ func genRuleSets(t *rapid.T) genCase {
 					owner[sh] = src
 					flagOf[sh] = bt
 					gr.Exprs = append(gr.Exprs, e)
+
+					// a condition on the first named single wildcard of the route: a value paths are filled with, or none
+					param := ""
+					if firstNamedSingle(e) != "" && rapid.IntRange(0, 2).Draw(t, "withPathParam") == 1 {
+						param = rapid.SampledFrom([]string{"a", "b", "ab", "x"}).Draw(t, "pathParam")
+					}
+
+					gr.Params = append(gr.Params, param)
 
 					break
 				}
@@ -166,8 +190,18 @@ func buildWorld(c genCase, order []string) (*vkit.World, map[string]bool, error)
 				Matcher: rulecfg.Matcher{BacktrackingEnabled: r.Backtrack, Methods: append([]string(nil), r.Methods...)},
 				Execute: []config.MechanismConfig{{"authenticator": "anon"}},
 			}
-			for _, e := range r.Exprs {
-				rc.Matcher.Routes = append(rc.Matcher.Routes, rulecfg.Route{Path: e.String()})
+			rc.Matcher.Scheme = r.Scheme
+			if r.Host != "" {
+				rc.Matcher.Hosts = []rulecfg.HostMatcher{{Type: "exact", Value: r.Host}}
+			}
+
+			for i, e := range r.Exprs {
+				rt := rulecfg.Route{Path: e.String()}
+				if r.Params[i] != "" {
+					rt.PathParams = []rulecfg.ParameterMatcher{{Name: firstNamedSingle(e), Type: "exact", Value: r.Params[i]}}
+				}
+
+				rc.Matcher.Routes = append(rc.Matcher.Routes, rt)
 			}
 
 			rs = append(rs, rc)
@@ -200,14 +234,29 @@ func refRoutes(c genCase, flags map[string]bool, method string) ([]vkit.RefRoute
 	)
 
 	for _, r := range c.Rules {
-		holds := len(r.Methods) == 0 || r.Methods[0] == method
+		holds := len(r.Methods) == 0 || slices.Contains(r.Methods, method)
+		holds = holds && (r.Scheme == "" || r.Scheme == "http") && (r.Host == "" || r.Host == "example.com")
 		key := r.Src + "/" + r.ID
 
-		for _, e := range r.Exprs {
+		for i, e := range r.Exprs {
+			name, want := firstNamedSingle(e), r.Params[i]
+
 			exprs = append(exprs, e)
 			routes = append(routes, vkit.RefRoute{
 				Expr: e, RuleKey: key, Backtrack: flags[key],
-				Holds: func([]vkit.Capture) bool { return holds },
+				Holds: func(caps []vkit.Capture) bool {
+					if !holds {
+						return false
+					}
+
+					for _, c := range caps {
+						if want != "" && c.Name == name && c.Value != want {
+							return false
+						}
+					}
+
+					return true
+				},
 			})
 		}
 	}
@@ -712,4 +761,15 @@ func TestTreeExhaustiveSmall(t *testing.T) {
 	if !failed {
 		vkit.S.SetExhaustive("all sets of <=3 expressions (<=2 segments over {a,b,:*} + optional ** or trailing slash) x 3 condition/backtracking modes x all paths of <=3 segments over {a,b,empty}")
 	}
+}
+
+// firstNamedSingle: the name of the first named single wildcard of the expression ("" if there is none).
+func firstNamedSingle(e vkit.Expr) string {
+	for _, s := range e {
+		if s.Kind == vkit.Single && s.Name != "*" {
+			return s.Name
+		}
+	}
+
+	return ""
 }
